@@ -100,6 +100,7 @@ impl ZipFileData {
 //@impl src/read.rs | impl<'a> ZipFile<'a>
 impl<'a> ZipFile<'a> {
 //@use zipfile_get_reader
+//@use zipfile_get_raw_reader
 //@use zipfile_compressed_size
 //@use zipfile_size
 //@use zipfile_last_modified
